@@ -96,6 +96,24 @@ def realistic_screen_kwargs(
         for a in range(arity):
             t.append(drugs[int(rng.integers(nd))])
             dd.append(doses[int(rng.integers(ndo))])
+        if arity == 3:
+            if nd >= 3:
+                pick = rng.choice(nd, size=3, replace=False)
+                t = [drugs[int(i)] for i in pick]
+            u = rng.random()
+            if u < p_double_control:
+                t, dd = [control] * 3, [0.0] * 3
+            elif u < p_double_control + p_single:
+                keep = int(rng.integers(3))  # single agent: control in the two other columns
+                for a in range(3):
+                    if a != keep:
+                        if rng.random() < 0.5:
+                            t[a] = control
+                        dd[a] = 0.0
+            elif u < p_double_control + 2 * p_single:
+                a = int(rng.integers(3))  # partial combination: control in one column
+                t[a] = control
+                dd[a] = 0.0
         if arity == 2:
             if t[0] == t[1]:
                 # a drug paired with itself: choose another drug when possible
